@@ -28,6 +28,10 @@ def run(ctx):
   ctx.rule('R30.2', 'decimal: DecimalSat::fmt writes height.offset and Sat::from_decimal splits once on "."; percentile: Sat::percentile appends "%" and Sat::from_percentile requires a trailing "%" and strips exactly one byte')
   ctx.rule('R30.3', 'name: Sat::name draws letters from "abcdefghijklmnopqrstuvwxyz" with (x−1) % 26, (x−1) / 26 and Sat::from_name accepts exactly \'a\'..=\'z\' with x·26 + (c − \'a\') + 1; both start from SUPPLY − n')
   ctx.rule('R30.4', 'dispatch: Sat::from_str tests lowercase letters → name, "°" → degree, "%" → percentile, "." → decimal, else integer — in that dominance order ("%" before ".")')
+
+  ctx.rule('R30.5', 'component widths: Sat::from_decimal and Sat::from_degree parse each numeric component at the integer type of the field that DecimalSat / Degree print it from '
+           '(height u32, offset u64; hour, minute, second u32, third u64) — a narrower parse rejects sats the printer emits')
+  _r30_5(ctx)
   # ---- R30.1
   df = ctx.body('R30.1', '<ordinals::degree::Degree as std::fmt::Display>::fmt')
   fd = ctx.body('R30.1', S + 'from_degree')
@@ -110,3 +114,24 @@ def run(ctx):
 # sensitivity pack (thorough tier): each seeded edit must be reported by the named rule instance
 MUTANTS = [{'name': 'degree-separator-changed-in-printer', 'file': 'crates/ordinals/src/degree.rs', 'old': '"{}°{}′{}″{}‴"', 'new': '"{}°{}′{}″{}"', 'expect': ('R30.1', 'Degree', '')},
            {'name': 'percent-tested-after-dot', 'file': 'crates/ordinals/src/sat.rs', 'old': "    } else if s.contains('%') {\n      Self::from_percentile(s)\n    } else if s.contains('.') {\n      Self::from_decimal(s)", 'new': "    } else if s.contains('.') {\n      Self::from_decimal(s)\n    } else if s.contains('%') {\n      Self::from_percentile(s)", 'expect': ('R30.4', 'from_str', 'from_percentile is chosen')}]
+
+
+def _r30_5(ctx):
+  F = ctx.facts
+
+  def scalar(ty):
+    a = F.adts.get(ty)
+    if a and a.get('kind') == 'struct' and len(a['variants'][0]['fields']) == 1:
+      return a['variants'][0]['fields'][0]['ty']
+    return ty
+  for parser, printed in (('ordinals::sat::Sat::from_decimal', 'ordinals::decimal_sat::DecimalSat'), ('ordinals::sat::Sat::from_degree', 'ordinals::degree::Degree')):
+    b = ctx.body('R30.5', parser)
+    adt = F.adts.get(printed)
+    if b is None or not ctx.anchor('R30.5', printed, adt is not None, parser):
+      continue
+    want = [scalar(f['ty']) for f in adt['variants'][0]['fields']]
+    got = []
+    for c in sorted([c for c in b.calls if c.is_('re:str>::parse$')], key=lambda c: (c.line or 0, c.bb)):
+      ga = c.f.get('ga') or ''
+      got.append(ga.strip('[]'))
+    ctx.ob('R30.5', b.n, f'components parsed as {want} (the printed field types, in order)', got == want, f'parsed as {got}', where(b, b.line))
